@@ -16,3 +16,9 @@ for w in WRAPPERS:
     GROUPS.append(Group("qs/" + w, "qs_edit.c", tus=QS, model=MODEL, defines=["FN_" + w],
                         enforce=["mpq_%s/contract_%s" % (w, w)], replace=rep,
                         props=["C05", "C07", "C17"], assumed=[ASSUMED]))
+
+GROUPS.append(Group("qs/opt", "qs_opt.c", tus=QS, model=MODEL, dfcc=False, flags=["--no-malloc-may-fail"], kind="proved",
+                    remove_bodies=["grab_basis", "mpq_QSgrab_cache", "mpq_QScopy_prob", "mpq_QSfree_prob"],
+                    must_fail=["reach_end", "reach_warm", "reach_skipped"], functions=["QSopt_primal", "QSopt_dual", "opt_work"], props=["C05", "C01", "C17"],
+                    note="loop-free; every callee is a ghost-recording stub",
+                    assumed=["qs/opt: ILLlib_optimize (the simplex), grab_basis, QSgrab_cache, QScopy_prob, ILLlp_scale are nondeterministic ghost-recording stubs"]))
